@@ -44,6 +44,9 @@ func bmAttrs() map[string]ugo.Object {
 		"arr": ugo.Array{ugo.Int(1), ugo.Int(2)},
 		"m":   ugo.Map{"x": ugo.Int(1)},
 		"f":   &ugo.Function{Name: "f", Value: func(a ...ugo.Object) (ugo.Object, error) { return ugo.Int(len(a)), nil }},
+		// compound values at every position of nested containers (first and later elements)
+		"nested": ugo.Array{ugo.Map{"hits": ugo.Int(1)}, ugo.Array{ugo.Int(1)}, ugo.Map{"hits": ugo.Int(1)}, ugo.Bytes{1, 2}},
+		"deep":   ugo.Map{"list": ugo.Array{ugo.Array{ugo.Int(1), ugo.Array{ugo.Int(1)}}, ugo.Map{"a": ugo.Map{"b": ugo.Int(1)}}}, "by": ugo.Bytes{1}},
 	}
 }
 
@@ -60,11 +63,19 @@ func moduleMap(mods map[string]string, bm map[string]ugo.Object) *ugo.ModuleMap 
 // module value, runs script callbacks on pooled child VMs, formats an error with its trace.
 const stanza = `
 zbm := import("bm")
-zold := [zbm.k, zbm.arr[0], zbm.m.x]
+zold := [zbm.k, zbm.arr[0], zbm.m.x, zbm.nested[0].hits, zbm.nested[1][0], zbm.nested[2].hits, zbm.nested[3][0], zbm.deep.list[0][0], zbm.deep.list[0][1][0], zbm.deep.list[1].a.b, zbm.deep.by[0]]
 zbm.k = zbm.k + ZWHO
 zbm.arr[0] = ZWHO
 zbm.m.x = ZWHO
 zbm.extra = ZWHO
+zbm.nested[0].hits = ZWHO
+zbm.nested[1][0] = ZWHO
+zbm.nested[2].hits = ZWHO
+zbm.nested[3][0] = 7
+zbm.deep.list[0][0] = ZWHO
+zbm.deep.list[0][1][0] = ZWHO
+zbm.deep.list[1].a.b = ZWHO
+zbm.deep.by[0] = 9
 zs := import("strings")
 zup := zs.Map(func(c) { return c + 1 }, "abc") + string(zs.IndexFunc("xxa", func(c) { return c == 'a' }))
 zerr := undefined
